@@ -43,6 +43,23 @@ theorem errOf_some {α : Type} {r : R α} {e : Err} (h : errOf r = some e) : r =
 
 theorem fresh16_exN : errOf (put fresh16 exN).1 = some .range := by decide +kernel
 
+/-- a file image with one chunk of 257 bytes: longer than the chunk length -/
+def exL : FImg := { fullPath := [76], fsType := [4], chunks := [(0, List.replicate 257 7)] }
+
+/-- the source as written accepts `exL` and `get` then returns a chunk that does **not** begin with the stored bytes -/
+def truncWitness : Bool :=
+  match (put fresh16 exL).1, (get (put fresh16 exL).2 exL.fullPath).1 with
+  | .ok _, .ok g => !(chunksMatch (putChunks exL) g.chunks)
+  | _, _ => false
+
+theorem fresh16_exL_truncated : truncWitness = true := by decide +kernel
+
+/-- the repaired source refuses `exN` (no type byte) with RANGE ERROR -/
+theorem fresh16_exN_repaired : errOf (put fresh16 exN Repairs.repaired).1 = some .range := by decide +kernel
+
+/-- the repaired source refuses `exL` with RANGE ERROR -/
+theorem fresh16_exL_refused : errOf (put fresh16 exL Repairs.repaired).1 = some .range := by decide +kernel
+
 theorem initSys_lt : ∀ u ∈ initSys 16, u < 35 * 16 := by decide +kernel
 
 theorem paths_of_no_tsls {r : Raw} {c : Nat} {sb : List Nat} {L : Lay} (h : L.tsls = []) : (volOf r c sb L).paths = [] := by
